@@ -20,6 +20,12 @@ if TYPE_CHECKING:  # pragma: no cover
     from formulaic.model_spec import ModelSpec
 
 
+def _is_arrow_dictionary(dtype: Any) -> bool:
+    # pandas.ArrowDtype(pyarrow.dictionary(...)): the arrow counterpart of `category`
+    pa_dtype = getattr(dtype, "pyarrow_dtype", None)
+    return pa_dtype is not None and type(pa_dtype).__name__ == "DictionaryType"
+
+
 class PandasMaterializer(FormulaMaterializer):
     REGISTER_NAME = "pandas"
     REGISTER_INPUTS: Sequence[str] = (
@@ -47,6 +53,7 @@ class PandasMaterializer(FormulaMaterializer):
                 values.dtype == object
                 or isinstance(values.dtype, pandas.CategoricalDtype)
                 or pandas.api.types.is_string_dtype(values.dtype)
+                or _is_arrow_dictionary(values.dtype)
             )
         return super()._is_categorical(values)
 
